@@ -35,6 +35,7 @@ signature_matches = c01.signature_matches
 
 
 _EVENTS = []
+_WEIGHTS = []
 
 
 def _watch_events():
@@ -54,6 +55,7 @@ def _watch_events():
 
         def heuristic(self, weight, _h0=h0):
             _EVENTS.append('heuristic')
+            _WEIGHTS.append(weight)
             return _h0(self, weight)
         cls.heuristic = heuristic
     PEP._vf_watched = True
@@ -63,6 +65,7 @@ def prog(env, case):
     from PEPit import Point, Expression
     _watch_events()
     del _EVENTS[:]
+    del _WEIGHTS[:]
     spec = dict(case['spec'])
     backend = case['backend']
     h = case['heuristic']
@@ -165,6 +168,22 @@ def prog(env, case):
         env.check(sense == 'min' and not any(k[0] != 'G' for k in of) and sdp._zero(oc) if env.sym else sense == 'min',
                   "objective of the heuristic problem is not a pure 'minimise <W, G>' (sense %s, keys %s)"
                   % (sense, [str(k) for k in of if k[0] != 'G']), signature=tag + ":objective-shape")
+        # the objective handed to the solver is <W, G> for the weight matrix the PEP passed LAST (a wrapper that keeps the
+        # problem of an earlier call would minimise a stale objective)
+        if _WEIGHTS and sense == 'min':
+            W = _WEIGHTS[-1]
+            for i in range(n):
+                for j in range(i, n):
+                    want = W[i, i] if i == j else W[i, j] + W[j, i]
+                    got = of.get(('G', i, j), 0)
+                    if env.sym:
+                        env.check_eq(got, want, "objective weight of G[%d,%d] in the last heuristic problem is not the weight "
+                                     "passed to wrapper.heuristic last" % (i, j), signature=tag + ":objective-weights")
+                    else:
+                        env.check(abs(float(got) - float(want)) <= 1e-6 * (1 + abs(float(want))),
+                                  "objective weight of G[%d,%d] in the last heuristic problem is %g, the weight passed to "
+                                  "wrapper.heuristic last is %g" % (i, j, float(got), float(want)),
+                                  signature=tag + ":objective-weights")
         if h == 'trace':
             ref = dict(kind='eq', form={('G', i, i): 1 for i in range(n)}, const=0)
             env.check(sdp.same_row(env, ref, dict(kind='eq', form=of, const=oc), prove=True),
